@@ -49,6 +49,7 @@ struct Elem {
     std::string name;
     bool scaled_big = false;   /* payload = 5 containers + 3 */
     bool noise = false;        /* payload bytes from a fixed generator: incompressible, the compressor's worst case */
+    bool deflt = false;        /* the default-constructed object of the class, nothing set (C17) */
 };
 
 static std::vector<Elem> alphabet() {
@@ -93,6 +94,7 @@ struct Built {
 };
 
 static ObjectHeaderBase * make(const Elem & e, long cont) {
+    if (e.deflt) return e.spec.cls->make();
     uni::Spec s = e.spec;
     if (e.scaled_big) s.shape["text"] = (size_t)std::min<long>(5 * cont + 3, 700 * 1024);
     ObjectHeaderBase * o = uni::build(s);
@@ -371,7 +373,18 @@ int main(int argc, char ** argv) {
         } else {
             std::vector<Elem> A;
             if (set == "alpha") A = alphabet();
-            else {
+            else if (set == "defaults") {
+                /* C17: every class's default-constructed object through File, alone in a file */
+                for (auto & c : refl::classes()) {
+                    if (std::string(c.name) == "LogContainer") continue;
+                    Elem e;
+                    e.spec.cls = &c;
+                    e.name = std::string("default-constructed ") + c.name;
+                    e.deflt = true;
+                    A.push_back(e);
+                }
+                maxlen = 1;
+            } else {
                 uni::Options uo;
                 uo.big = args.num("big", 0) != 0;
                 uo.all_patterns = args.num("patterns", 1) != 0;
